@@ -119,6 +119,16 @@ CHECKS["C03"] = dict(
     design="DESIGN.md section 5 C03",
     note="pyfftw plans replaced by their mathematical contract (validated numerically each run); Green's table entries read as exact rationals; 40-digit twiddles; exact reals; z3")
 
+CHECKS["C01"] = dict(
+    text="Bounded symbolic checking of the real simulators: for each configuration the state, dt, viscosity, density, free stream, clock and every scratch buffer are solver variables and "
+         "time_step() runs symbolically (kernels from the pystencils backend IR, FFTW = exact-DFT stub). Stage by stage against an independent reference: vorticity before boundary damping "
+         "equals forcing -> transport -> diffusion (-> filter) exactly (z3 non-linear queries incl. the ENO3 upwind switches); boundary damping and the Poisson stage (Green's convolution or "
+         "discrete Neumann problem) within stated tolerances for all inputs in a box (QF_LRA, cut points); velocity = curl of the stream function + free stream exactly; clock advances by dt; "
+         "forcing field zero on return; time_step returns normally for every configuration.",
+    technique="symbolic execution of the real time_step with cut points (generalisation to fresh variables) + z3 NRA equivalence queries per cell and QF_LRA tolerance queries; replay on the compiled build",
+    design="DESIGN.md section 5 C01",
+    note="exact real arithmetic; cut points at the inputs of boundary damping and of the curl; FFTW replaced by its DFT contract; LAPACK/FFTW-made tables are data; configurations and grids as listed in the evidence; z3")
+
 NOT_APPLICABLE = {
     "C02": "convergence of whole simulations over resolution families: thousands of time steps of floating-point code on 32^2..128^2 grids; no bound on steps/sizes under which a solver query is still the property (DESIGN.md section 5 C02). Its solver-decidable ingredients are claimed under C01, C03, C05, C16.",
 }
